@@ -244,6 +244,8 @@ def f_core():
     add("hyphen-pos+opt", cmd("p", [arg("o", "o", "opt"), arg("m", "m", "multi", num=(1, 2)), arg("p1", hyphen=True, num=(0, None))]), extra=["--zz=1"])
     add("negnum-pos", cmd("p", [arg("f", "f", action="SetTrue"), arg("n", "n", "num", negnum=True), arg("p1", negnum=True)]), extra=["-1.5", "-1e3"])
     add("aliases", cmd("p", [arg("o", "o", "opt", aliases=["alt", "other"]), arg("f", "f", "flag", aliases=["fl"], action="SetTrue")]))
+    add("hidden-alias-vs-visible", cmd("p", [arg("colour", "c", "colour", aliases=["output-colour"], action="SetTrue"), arg("output", "o", "output")]),
+        extra=["--out", "--output-c", "--col"])
     add("infer-long", cmd("p", [arg("v1", long="verbose", action="SetTrue"), arg("v2", long="version2", action="SetTrue"),
                                 arg("o", "o", "output", aliases=["out-file"])], infer_long_args=True),
         extra=["--ver", "--verb", "--o", "--out", "--out-f", "--output=v"])
